@@ -25,6 +25,7 @@ rewrite /select_solve; elim: c => //=.
 - by move=> k b _ h; rewrite /solve_fn h.
 - by move=> b _ h; rewrite /solve_fn h.
 - by move=> n h; rewrite /solve_fn h.
+- by move=> fs h; rewrite /solve_fn h.
 Qed.
 
 (* conjugate gradients at the top level only for large operators with fast solves on *)
